@@ -19,6 +19,8 @@ from ..runner import compiles, run_project
 LIB = {
     "xma.py": "A1 = 'xma.A1'\nA2 = 'xma.A2'\n_priv = 0\n",
     "xmb.py": "B1 = 'xmb.B1'\nA1 = 'xmb.A1'\n__all__ = ['B1']\n",
+    "xm.py": "M1 = 'xm.M1'\n",
+    "xmaa.py": "A0 = 'xmaa.A0'\nA1 = 'xmaa.A1'\n",
     "xpk/__init__.py": "P0 = 'xpk.P0'\n",
     "xpk/xmc.py": "C1 = 'xpk.xmc.C1'\nC2 = 'xpk.xmc.C2'\n",
     "xpk/xsub/__init__.py": "",
@@ -54,6 +56,13 @@ FORMS = [
     ("from .. import xmc", "xmc.C1", "sub"),
     ("import xmeta", "xmeta.%s", "root"),
     ("from xmeta import Meta, Base, TAG, deco", "%s", "root"),
+    # a package next to an aliased import of its sub-module; a second provider of a star-exported name;
+    # a module whose name is a prefix of another imported module's name
+    ("import xpk", "xpk.P0", "root"),
+    ("import xpk.xmc as xc", "xc.C2", "root"),
+    ("from xmb import A1", "A1", "root"),
+    ("import xm", "xm.M1", "root"),
+    ("from xmaa import *", "A0", "root"),
 ]
 SPECIAL_USAGES = {"class-keyword": ("Meta", "class Z%d(metaclass=%s):\n    pass\n\n\nprint(type(Z%d).__name__)"),
                   "class-base": ("Base", "class Z%d(%s):\n    pass\n\n\nprint(Z%d.__mro__[1].__name__)"),
@@ -63,6 +72,25 @@ USAGES = ["unused", "module", "function", "all-only"]
 ACTIONS = ["organize_imports", "expand_star_imports", "froms_to_imports", "relatives_to_absolutes", "handle_long_imports"]
 PREFS = [{}, {"split_imports": True}, {"pull_imports_to_top": False}, {"sort_imports_alphabetically": True},
          {"split_imports": True, "sort_imports_alphabetically": True}]
+
+
+# the forms added last are paired only with the statements they can interact with
+PARTNERS = {
+    "import xpk": ["import xpk.xmc", "import xpk.xsub.xme", "import xpk.xmc as xc", "from xpk import xmc", "from xpk.xmc import C1", "import xma"],
+    "import xpk.xmc as xc": ["import xpk", "import xpk.xmc", "from xpk import xmc", "import xma as xa", "from xpk.xmc import C1"],
+    "from xmb import A1": ["from xma import A1", "from xma import A1 as z1", "from xma import A1, A2", "from xma import (A1,\n    A2)", "from xma import *",
+                           "from xmb import *", "from xmaa import *", "import xma, xmb", "import xma"],
+    "import xm": ["import xma", "import xma as xa", "import xma, xmb", "from xma import A1", "import xmeta"],
+    "from xmaa import *": ["from xma import A1", "from xma import A1, A2", "from xma import *", "from xmb import *", "from xmb import A1", "import xma"],
+}
+
+
+def partners_ok(stmts):
+    texts = [FORMS[i][0] for i in stmts]
+    for t in texts:
+        if t in PARTNERS and not all(o == t or o in PARTNERS[t] or (o in PARTNERS and t in PARTNERS[o]) for o in texts):
+            return False
+    return True
 
 
 def build_target(stmts, usages, header):
@@ -104,7 +132,7 @@ class C07(Check):
     pid = "C07"
     level = "exploration"
     rule = ("cases = (target location in {project root, inside package xpk, inside sub-package xpk.xsub}, header in {none, docstring+comment}, block of <=2 (3) "
-            "import statements over 25 forms, usage of each in {unused, module level, inside a function, only in __all__; for two forms also class keyword (metaclass=), base class, default argument, decorator}); "
+            "import statements over 30 forms, usage of each in {unused, module level, inside a function, only in __all__; for two forms also class keyword (metaclass=), base class, default argument, decorator}); "
             "evaluations = one ImportOrganizer action per (case, action in 5, preference set in 5 (thorough) / default + split "
             "(quick)); oracle per performed action: modules compile; the target and a star-importing client print the same; a second "
             "application changes nothing; non-trivial = actions that changed the source; distinct by (source, action, prefs)")
@@ -124,6 +152,8 @@ class C07(Check):
                 forms = [i for i in forms if FORMS[i][2] == "sub" or FORMS[i][0] in ("import xma", "from xma import A1")]
             for k in range(1, n + 1):
                 for stmts in itertools.permutations(forms, k):
+                    if k >= 2 and not partners_ok(stmts):
+                        continue
                     if where != "root" and not any(FORMS[i][2] == where for i in stmts):
                         continue
                     if k == 3 and stmts[0] > stmts[1]:
@@ -183,6 +213,29 @@ class C07(Check):
                 feats0.append("from-import-of-a-submodule")
             if st.startswith("from") and u == "all-only":
                 feats0.append("from-import-used-only-in-__all__")
+        # two statements that bind the same name from different sources: the later one wins at run time
+        bound = []
+        for i in sorted(case["stmts"], key=lambda i: 0 if "__future__" in FORMS[i][0] else 1):
+            st = FORMS[i][0]
+            if st == "from xma import *":
+                bound.append(("star", {"A1", "A2"}))
+            elif st == "from xmaa import *":
+                bound.append(("star-using-another-name", {"A0", "A1"}))
+            elif st == "from xmb import *":
+                bound.append(("star-hiding-A1", {"B1", "A1"}))
+            elif st.startswith("from ") and "__future__" not in st:
+                names = st.split(" import ")[1].replace("(", "").replace(")", "").replace("\n", " ").split(",")
+                bound.append(("explicit", {n.split(" as ")[-1].strip() for n in names}))
+            else:
+                bound.append(("import", set()))
+        srcmods = {FORMS[i][0].split()[1] for i in case["stmts"]}
+        if {"from xmb import *", "from xmb import A1"} <= {FORMS[i][0] for i in case["stmts"]}:
+            feats0.append("star-import-next-to-an-explicit-import-of-a-name-hidden-by-__all__")
+        if len(bound) == 2 and bound[0][1] & bound[1][1] and len(srcmods) == 2:
+            label = "same-name-bound-twice:%s-then-%s" % (bound[0][0], bound[1][0])
+            if "from xmb import A1" not in [FORMS[i][0] for i in case["stmts"]]:
+                label += "/sorting-swaps-them"     # xma sorts before xmaa: the tidied block has the other order
+            feats0.append(label)
         mods = [FORMS[i][0].split()[1].lstrip(".") for i in case["stmts"]]
         if len(set(mods)) < len(mods):
             feats0.append("same-module-twice")
